@@ -38,7 +38,10 @@ MEMBERS = [
     ("cpre", "Const(b'ab', Prefixed(Byte, GreedyBytes))", True, False), ("cnt", "Const(b'ab', NullTerminated(GreedyBytes))", True, False), ("cpad", "Const(7, Padded(3, Byte))", True, False),
     ("shared", "SHARED", True, False), ("sharedbits", "Bitwise(Array(4, SHARED))", True, False), ("sharedarr", "Array(2, SHARED)", True, False), ("flag", "Flag", True, False),
     ("inner", "Struct('x'/Byte, 'y'/Int16ub)", True, False), ("arrst", "Array(2, Struct('z'/Byte))", True, False), ("until", "RepeatUntil(obj_ == 0, Byte)", True, False),
-    ("nt", "NullTerminated(GreedyBytes)", True, False), ("ns", "FixedSized(3, NullStripped(GreedyBytes))", True, False), ("varint", "VarInt", True, False), ("hex", "Hex(Int32ub)", True, False),
+    ("nt", "NullTerminated(GreedyBytes)", True, False), ("nt_inc", "NullTerminated(GreedyBytes, include=True)", True, False), ("nt_nc", "NullTerminated(GreedyBytes, consume=False)", True, False),
+    ("nt_inc_nc", "NullTerminated(GreedyBytes, include=True, consume=False)", True, False),
+    ("u16n", "Int16un", True, False), ("s32n", "Int32sn", True, False), ("fl16n", "FlagsEnum(Int16un, a=1, b=256, top=0x8000)", True, False), ("fl32n", "FlagsEnum(Int32un, a=1, z=0x01000000)", True, False),
+    ("en16n", "Enum(Int16un, one=1, big=0x0102)", True, False), ("f32n", "Float32n", True, False), ("ns", "FixedSized(3, NullStripped(GreedyBytes))", True, False), ("varint", "VarInt", True, False), ("hex", "Hex(Int32ub)", True, False),
     ("rest", "GreedyBytes", True, True), ("cstr", "CString('ascii')", True, False), ("pstr", "PaddedString(3, 'ascii')", True, False), ("pas", "PascalString(Byte, 'utf8')", True, False),
     ("seq", "Sequence(Byte, Int16ub)", True, False),
 ]
@@ -49,7 +52,7 @@ def instances(tier, seed):
     out = []
     names = [m[0] for m in MEMBERS]
     big = {"s32b": 4, "s40l": 5, "f32": 4, "f64l": 8, "arr": 4, "hex": 4, "sharedarr": 4, "seq": 3, "u24": 3, "pad": 3, "ns": 3, "pstr": 3, "cpad": 3, "inner": 3, "cpre": 3, "cnt": 3, "bits16": 2,
-           "u16l": 2, "raw2": 2, "cint": 2, "magic": 2, "arrst": 2, "fl16": 2, "ens": 2, "padding": 2}
+           "u16l": 2, "u16n": 2, "fl16n": 2, "en16n": 2, "s32n": 4, "fl32n": 4, "f32n": 4, "nt_inc": 2, "nt_nc": 2, "nt_inc_nc": 2, "raw2": 2, "cint": 2, "magic": 2, "arrst": 2, "fl16": 2, "ens": 2, "padding": 2}
 
     def need(ms):
         return max(8, 3 + sum(big.get(m, 1) for m in ms) + 1)
